@@ -263,6 +263,9 @@ class Machine:
             if mask or attr in set_sys:
                 self._sys_put(regs, attr, env.wrap(t))
             pre.sys[attr] = t
+        if cfg.get('virt') and cfg.get('sec') and not isinstance(mode, str):
+            # valid-state invariant: Hyp mode exists in Non-secure state only
+            env.assume(z3.Implies(mv == MODE['hyp'], z3.Extract(0, 0, pre.sys['scr']) == 1))
         pre.flags['event_register'] = z3.BoolVal(False)
         pre.flags['is_wait_for_event'] = z3.BoolVal(False)
         pre.flags['is_wait_for_interrupt'] = z3.BoolVal(False)
